@@ -2239,13 +2239,13 @@ func (b *RecentBlocks) Decode(d *Decoder) error {
 func (a *AuthorizerHash) Decode(d *Decoder) error {
 	cLog(Cyan, "Decoding AuthorizerHash")
 
-	var val AuthorizerHash
+	var val OpaqueHash
 	if err := val.Decode(d); err != nil {
 		return err
 	}
 	cLog(Yellow, "AuthorizerHash: %x", val)
 
-	*a = val
+	*a = AuthorizerHash(val)
 	return nil
 }
 
